@@ -63,6 +63,7 @@ type Obligation struct {
 	Goal    *Term
 	Trivial bool
 	Vacuous bool // reachability obligation of a harness whose end no path reaches
+	RawScript string // class M: a hand-written SMT-LIB script (negated claim)
 	Pos     string
 	Result  *SolveResult
 	Inputs  []inputRec
@@ -1782,7 +1783,10 @@ func (x *Exec) callStatic(fr *Frame, fn *ssa.Function, args []Value, bind []Valu
 		}
 	}
 	ghost := x.P.isGhostFn(fn) || (fr != nil && fr.ghost && x.P.isSpecFn(fn))
-	if k := x.P.smtKind(fn); k != "" {
+	if k := x.P.smtKind(fn); k == "string-uf" {
+		x.assumedCtr["characterised string function: "+name] = true
+		return x.stringUF(fn, args)
+	} else if k != "" {
 		if k == "opaque" {
 			x.assumedCtr["uninterpreted: "+name] = true
 		}
